@@ -99,7 +99,7 @@ func NewMonitors() *Monitors {
 var alsoViolates = map[string][][2]string{
 	"C13/other-sub":                   {{"C02", "seek-other-sub"}, {"C14", "seek-touched-other-sub"}}, // subscription independence; its rows' retention is its own
 	"C06/after-done":                  {{"C03", "dead-lettered-after-ack"}},                           // an acknowledged message is never handed out again
-	"C13/snapshot-not-restored":       {{"C01", "lost-by-seek"}},                                      // a never-acknowledged delivery was retired
+	"C13/snapshot-not-restored":       {{"C01", "lost-by-seek"}, {"C02", "lost-by-seek"}},             // a never-acknowledged delivery was retired
 	"C13/not-restored":                {{"C01", "lost-by-seek"}},
 	"C13/snapshot-later-not-restored": {{"C01", "lost-by-seek"}},
 	"C13/restore-times":               {{"C14", "retention-not-restarted"}},
